@@ -49,7 +49,7 @@ def modify(ctx, path, md5, no_reverify, size):
             # The "remove" part can't happen because an empty string will fail
             # the validate_md5 check.
             updates |= update_or_remove("md5sum", md5, file_.md5sum)
-        if size != file_.size_b:
+        if size is not None and size != file_.size_b:
             updates["size_b"] = size
 
         if not updates:
